@@ -83,6 +83,8 @@ func recomposeVia(mode string, own *alt.Recomposer, data any, t reflect.Type) (r
 		err = oj.Unmarshal([]byte(oj.JSON(data, &ojg.Options{Sort: true})), ptr.Interface())
 	case "sen.Unmarshal":
 		err = sen.Unmarshal([]byte(sen.String(data, &ojg.Options{Sort: true})), ptr.Interface())
+	case "sen.Unmarshal/own":
+		err = sen.Unmarshal([]byte(sen.String(data, &ojg.Options{Sort: true})), ptr.Interface(), own)
 	case "oj.Unmarshal/own":
 		err = oj.Unmarshal([]byte(oj.JSON(data, &ojg.Options{Sort: true})), ptr.Interface(), own)
 	default:
@@ -122,8 +124,10 @@ func runHistory(mode string, h []string) histEvent {
 		}
 		// reference: a FRESH recomposer for this one call (through the instance API, so that nothing is shared)
 		refMode := "own"
-		if mode == "oj.Unmarshal" || mode == "sen.Unmarshal" {
+		if mode == "oj.Unmarshal" {
 			refMode = "oj.Unmarshal/own"
+		} else if mode == "sen.Unmarshal" {
+			refMode = "sen.Unmarshal/own"
 		}
 		ref, rerr := recomposeVia(refMode, freshRecomposer(), data, rv.Type())
 		c.RefOk = rerr == nil
